@@ -26,8 +26,8 @@ import (
 )
 
 const (
-	goBin    = "go1.26.8"
-	goRoot   = "/opt/veriftools/go1.26.8"
+	goBin  = "go1.26.8"
+	goRoot = "/opt/veriftools/go1.26.8"
 )
 
 var (
